@@ -2150,10 +2150,17 @@ func (c *Conn) handleRecordContent(
 	switch content := content.(type) {
 	case *protocol.ACK:
 		isLatestSeqNum := prepared.markPacketAsValid()
+		// An ACK only acknowledges records of its own or an earlier epoch: an
+		// unprotected (epoch 0) ACK says nothing about protected flights.
+		// https://www.rfc-editor.org/rfc/rfc9147.html#section-7
+		records := make([]protocol.RecordNumber, 0, len(content.Records))
+		for _, record := range content.Records {
+			if record.Epoch <= uint64(prepared.header.Epoch) {
+				records = append(records, record)
+			}
+		}
 
-		return isLatestSeqNum, packetOutcome{
-			receivedACK: &protocol.ACK{Records: append([]protocol.RecordNumber(nil), content.Records...)},
-		}, nil
+		return isLatestSeqNum, packetOutcome{receivedACK: &protocol.ACK{Records: records}}, nil
 	case *alert.Alert:
 		c.log.Tracef("%s: <- %s", srvCliStr(dtlsstate.CommonState(c.state).IsClient), content.String())
 		var responseAlert *alert.Alert
